@@ -16,7 +16,55 @@ POLY_TAC = ("by\n  simp only [{defs}, Scalar.npow, Scalar.sq, lit_real, Nat.cast
             "    Quat.toList, Vec3.toList, Mat3.toList, List.cons.injEq, and_true]\n"
             "  repeat' apply And.intro\n  all_goals (first | trivial | ring)")
 
-# kernel -> (binders, statement, defs to unfold, properties served)
+# --- branching / transcendental kernels (C01): unfold both sides over ℝ, turn the Bool tests into propositions,
+# split every `if`, close each leaf by rfl / ring1 / contradiction of linear conditions.  Robust to renamings,
+# re-association / commutation of arithmetic and to reordering of branches; see harness/props/c01.py (TAST_NOTE).
+BRANCH_HDR = ("import Mathlib.Tactic.Ring\nimport Mathlib.Tactic.Linarith\nimport Mathlib.Tactic.SplitIfs\n"
+              "import OrixProofs.Lemmas.RealScalar\nimport OrixModel\nimport OrixGen.Kernels\n"
+              "set_option linter.unusedSimpArgs false\nset_option linter.unusedTactic false\n"
+              "set_option linter.unreachableTactic false\n"
+              "/- GENERATED obligation: generated kernel = hand-written code-shaped model (T-ast). Do not edit. -/\n"
+              "namespace Orix.GenAudit\nopen Orix\n"
+              "set_option maxRecDepth 20000\n"
+              "macro \"kern_leaf\" : tactic =>\n"
+              "  `(tactic| (simp only [List.cons.injEq, and_true, true_and] <;> (try (repeat' apply And.intro)) <;>\n"
+              "      (first | rfl | ring1 | (exfalso; linarith) | (simp only [dec_real]; ring1) | (ring_nf; done)\n"
+              "             | (simp only [dec_real]; ring_nf; done))))\n"
+              "macro \"kern_close\" : tactic =>\n"
+              "  `(tactic| first\n"
+              "      | (split_ifs <;> simp only [List.cons.injEq, and_true, true_and] <;> (try (repeat' apply And.intro)) <;>\n"
+              "          (first | rfl | ring1))\n"
+              "      | (ring_nf; split_ifs <;> kern_leaf)\n"
+              "      | (split_ifs <;> kern_leaf))\n")
+BRANCH_SIMPS = ("Scalar.npow, lt_real, le_real, beq_real, abs_real, lit_real, Nat.cast_ofNat, Nat.cast_one, Nat.cast_zero, "
+                "Bool.and_eq_true, Bool.not_eq_true', Bool.not_eq_eq_eq_not, Bool.not_true, Quat.toList, Vec3.toList, "
+                "Euler.toList, AxAng.toList, Quat.neg, Quat.divS, Conv.eps9, Conv.eps8, Conv.half")
+BRANCH_TAC = "by\n  simp only [{defs}, " + BRANCH_SIMPS + "]\n  kern_close"
+# om2qu_single: the four first-stage values (0.5*sqrt(x_almost) with their sign tests) are abstracted first, then the
+# two-fold logic is split (64 leaves).  A full split of the un-abstracted kernel needs > 5 min, so the obligation is
+# only generated while the generated kernel still has that first-stage shape (om2qu_shape); otherwise it is skipped
+# with a note and the kernel is tied by the correspondence check alone (a harmless rewrite must not raise an alarm).
+def om2qu_shape(text):
+    import re
+    m = re.search(r"def om2qu_single .*?(?=\n\n|\Z)", text, re.S)
+    if not m:
+        return "kernel text not found"
+    body = m.group(0)
+    q0 = re.search(r"if t\d+ then \(Scalar\.lit 0\) else \(t\d+ \* \(Scalar\.sqrt t\d+\)\)", body)
+    sg = re.findall(r"if \(Scalar\.lt om_\d om_\d\) then \(t\d+ \* t\d+\) else \(t\d+ \* t\d+\)", body)
+    if q0 and len(sg) == 3:
+        return True
+    return "first-stage assignments of om2qu_single no longer have the shape the staged proof abstracts"
+
+
+OM2QU_TAC = ("by\n  simp only [{defs}, " + BRANCH_SIMPS + "]\n"
+             "  generalize (if 1 + m0 + m4 + m8 < Scalar.dec 1 9 then (0:ℝ) else Scalar.dec 5 1 * Scalar.sqrt (1 + m0 + m4 + m8)) = q0\n"
+             "  generalize (if 1 + m0 - m4 - m8 < Scalar.dec 1 9 then (0:ℝ) else if m7 < m5 then -Scalar.dec 5 1 * Scalar.sqrt (1 + m0 - m4 - m8) else Scalar.dec 5 1 * Scalar.sqrt (1 + m0 - m4 - m8)) = q1\n"
+             "  generalize (if 1 - m0 + m4 - m8 < Scalar.dec 1 9 then (0:ℝ) else if m2 < m6 then -Scalar.dec 5 1 * Scalar.sqrt (1 - m0 + m4 - m8) else Scalar.dec 5 1 * Scalar.sqrt (1 - m0 + m4 - m8)) = q2\n"
+             "  generalize (if 1 - m0 - m4 + m8 < Scalar.dec 1 9 then (0:ℝ) else if m3 < m1 then -Scalar.dec 5 1 * Scalar.sqrt (1 - m0 - m4 + m8) else Scalar.dec 5 1 * Scalar.sqrt (1 - m0 - m4 + m8)) = q3\n"
+             "  kern_close")
+
+# kernel -> (binders, statement, defs to unfold, properties served[, tactic template, header])
 KERNEL_OBLIGATIONS = {
     "qu_conj_gufunc": ("(a b c d : ℝ)", "Gen.qu_conj_gufunc a b c d = (Quat.conj ⟨a, b, c, d⟩).toList",
                        "Gen.qu_conj_gufunc, Quat.conj", ["C02", "C18"]),
@@ -34,6 +82,36 @@ KERNEL_OBLIGATIONS = {
     "outer_dask_qv": ("(a b c d x y z : ℝ)",
                       "Gen.outer_dask_qv a b c d x y z = (Mat3.mulVec (Quat.toMat ⟨a, b, c, d⟩) ⟨x, y, z⟩).toList",
                       "Gen.outer_dask_qv, Quat.toMat, Mat3.mulVec", ["C02", "C18"]),
+    # C09: 4-index helpers (one element of the vectorised numpy code), C20: stereographic arithmetic
+    "hkl2hkil": ("(h k l : ℝ)", "Gen.hkl2hkil h k l = (Orix.hkl2hkil ⟨h, k, l⟩).toList",
+                 "Gen.hkl2hkil, Orix.hkl2hkil, Vec4.toList", ["C09"]),
+    "hkil2hkl": ("(h k i l : ℝ)", "Gen.hkil2hkl h k i l = (Orix.hkil2hkl ⟨h, k, i, l⟩).toList",
+                 "Gen.hkil2hkl, Orix.hkil2hkl, Vec4.toList", ["C09"]),
+    "uvw2UVTW": ("(u v w : ℝ)", "Gen.uvw2UVTW u v w = (Orix.uvw2UVTW ⟨u, v, w⟩).toList",
+                 "Gen.uvw2UVTW, Orix.uvw2UVTW, Vec4.toList", ["C09"]),
+    "UVTW2uvw": ("(U V T W : ℝ)", "Gen.UVTW2uvw U V T W = (Orix.UVTW2uvw ⟨U, V, T, W⟩).toList",
+                 "Gen.UVTW2uvw, Orix.UVTW2uvw, Vec4.toList", ["C09"]),
+    "xy2vector": ("(p x y : ℝ)", "Gen.xy2vector p x y = (Stereo.xy2vectorP p x y).toList",
+                  "Gen.xy2vector, Stereo.xy2vectorP", ["C20"]),
+    "vector2xy": ("(p x y z : ℝ)",
+                  "Gen.vector2xy p x y z = [(Stereo.vector2xyUnit p ⟨x, y, z⟩).1, (Stereo.vector2xyUnit p ⟨x, y, z⟩).2]",
+                  "Gen.vector2xy, Stereo.vector2xyUnit", ["C20"], BRANCH_TAC, BRANCH_HDR),
+    # C01: code-shaped conversion kernels (OrixModel/Conv.lean)
+    "om2qu_single": ("(m0 m1 m2 m3 m4 m5 m6 m7 m8 : ℝ)",
+                     "Gen.om2qu_single m0 m1 m2 m3 m4 m5 m6 m7 m8 = (Conv.om2qu ⟨m0, m1, m2, m3, m4, m5, m6, m7, m8⟩).toList",
+                     "Gen.om2qu_single, Conv.om2qu", ["C01"], OM2QU_TAC, BRANCH_HDR, 1000000, om2qu_shape),
+    "eu2qu_single": ("(a b c : ℝ)", "Gen.eu2qu_single a b c = (Conv.eu2qu ⟨a, b, c⟩).toList",
+                     "Gen.eu2qu_single, Conv.eu2qu, Conv.eu2quRaw", ["C01"], BRANCH_TAC, BRANCH_HDR),
+    "qu2eu_single": ("(a b c d : ℝ)", "Gen.qu2eu_single a b c d = (Conv.qu2eu ⟨a, b, c, d⟩).toList",
+                     "Gen.qu2eu_single, Conv.qu2eu, Conv.qu2euWith, Conv.zeroSmall", ["C01"], BRANCH_TAC, BRANCH_HDR),
+    "ax2qu_single": ("(x y z w : ℝ)", "Gen.ax2qu_single x y z w = (Conv.ax2qu ⟨⟨x, y, z⟩, w⟩).toList",
+                     "Gen.ax2qu_single, Conv.ax2qu", ["C01"], BRANCH_TAC, BRANCH_HDR),
+    "qu2ax_single": ("(a b c d : ℝ)", "Gen.qu2ax_single a b c d = (Conv.qu2ax ⟨a, b, c, d⟩).toList",
+                     "Gen.qu2ax_single, Conv.qu2ax", ["C01"], BRANCH_TAC, BRANCH_HDR),
+    "qu2ho_single": ("(a b c d : ℝ)", "Gen.qu2ho_single a b c d = (Conv.qu2ho ⟨a, b, c, d⟩).toList",
+                     "Gen.qu2ho_single, Conv.qu2ho", ["C01"], BRANCH_TAC, BRANCH_HDR),
+    "ho2ax_single": ("(x y z : ℝ)", "Gen.ho2ax_single x y z = (Conv.ho2ax ⟨x, y, z⟩).toList",
+                     "Gen.ho2ax_single, Conv.ho2ax, Conv.hoFit, Conv.hoPoly", ["C01"], BRANCH_TAC, BRANCH_HDR),
 }
 
 
@@ -95,7 +173,75 @@ def regen_groups(changed):
             "modules": ["OrixProofs.GenAudit.C03Tables"] + [f"OrixProofs.GenAudit.PG_{k}" for k in range(n)]}
 
 
-def regen(groups=False):
+def regen_sectors(changed):
+    """T-gen for C07/C08/C20: sector tables, certificates and their kernel-decided obligations"""
+    from . import sectors
+    secs = sectors.all_sectors()
+    text, good, bad = sectors.generate(secs)
+    if write_if_changed(os.path.join(LEAN, "OrixGen", "Sectors.lean"), text):
+        changed.append("OrixGen/Sectors.lean")
+    gdir = os.path.join(LEAN, "OrixProofs", "GenAudit")
+    wanted = set()
+    mods = []
+    for nm in good:
+        body = ("import OrixModel.Sector\nimport OrixGen.Sectors\n/- GENERATED obligation (T-gen). Do not edit. -/\n"
+                "namespace Orix.GenAudit\nopen Orix.Grp Orix.Gen\nset_option maxRecDepth 100000 in\n"
+                f"theorem sec_{nm} : checkSector SEC.{nm} = true := by decide +kernel\nend Orix.GenAudit\n")
+        fn = f"SEC_{nm}.lean"
+        wanted.add(fn)
+        mods.append(f"OrixProofs.GenAudit.SEC_{nm}")
+        if write_if_changed(os.path.join(gdir, fn), body):
+            changed.append("OrixProofs/GenAudit/" + fn)
+    for nm in bad:
+        body = ("import OrixModel.Sector\nimport OrixGen.Sectors\n/- GENERATED obligation (T-gen). Do not edit. -/\n"
+                "namespace Orix.GenAudit\nopen Orix.Grp Orix.Gen\nset_option maxRecDepth 100000 in\n"
+                f"theorem sec_{nm} : checkBad SEC.{nm}_ops SEC.{nm}_walls SEC.{nm}_wit = true := by decide +kernel\n"
+                "end Orix.GenAudit\n")
+        fn = f"SEC_{nm}.lean"
+        wanted.add(fn)
+        mods.append(f"OrixProofs.GenAudit.SEC_{nm}")
+        if write_if_changed(os.path.join(gdir, fn), body):
+            changed.append("OrixProofs/GenAudit/" + fn)
+    agg = ("\n".join(f"import OrixProofs.GenAudit.SEC_{nm}" for nm in good + bad) +
+           "\nimport OrixGen.Sectors\n/- GENERATED aggregate of the sector obligations (T-gen). Do not edit. -/\n"
+           "namespace Orix.GenAudit\nopen Orix.Grp Orix.Gen\n"
+           "theorem all_sectors_good : SEC.good.all checkSector = true := by\n"
+           "  simp only [SEC.good, List.all_cons, List.all_nil, "
+           + ", ".join(f"sec_{nm}" for nm in good) + ", Bool.and_self]\n"
+           "theorem all_sectors_bad : SEC.bad.all (fun t => checkBad t.1 t.2.1 t.2.2) = true := by\n"
+           "  simp only [SEC.bad, List.all_cons, List.all_nil, "
+           + ", ".join(f"sec_{nm}" for nm in bad) + ", Bool.and_self]\n"
+           "end Orix.GenAudit\n")
+    if write_if_changed(os.path.join(gdir, "C07Tables.lean"), agg):
+        changed.append("OrixProofs/GenAudit/C07Tables.lean")
+    wanted.add("C07Tables.lean")
+    for fn in os.listdir(gdir):
+        if fn.startswith("SEC_") and fn.endswith(".lean") and fn not in wanted:
+            os.remove(os.path.join(gdir, fn))
+    keep = ("k", "role", "name", "label", "status", "basis", "walls", "half", "why", "witness", "n_ops")
+    slim = []
+    for r in secs:
+        d = {k: v for k, v in r.items() if k in keep}
+        if "cert" in r:
+            d["centre"] = r["cert"]["centre"]
+        slim.append(d)
+    return {"sectors": slim, "good": good, "bad": bad,
+            "modules": ["OrixProofs.GenAudit.C07Tables"] + mods,
+            "theorems": [(f"OrixProofs.GenAudit.SEC_{nm}", f"Orix.GenAudit.sec_{nm}") for nm in good + bad]
+                        + [("OrixProofs.GenAudit.C07Tables", "Orix.GenAudit.all_sectors_good"),
+                           ("OrixProofs.GenAudit.C07Tables", "Orix.GenAudit.all_sectors_bad")]}
+
+
+def regen_io(changed=None):
+    """T-gen for C13-C15: vendor column tables, alias/sentinel tables of the I/O plugins (OrixGen/IoTables.lean)"""
+    from . import tables_io
+    text, status = tables_io.generate()
+    if write_if_changed(os.path.join(LEAN, "OrixGen", "IoTables.lean"), text) and changed is not None:
+        changed.append("OrixGen/IoTables.lean")
+    return status
+
+
+def regen(groups=False, io=False):
     """returns a status record; raises nothing for untranslatable kernels (they are recorded)"""
     text, kstatus = kernels.generate()
     changed = []
@@ -105,11 +251,21 @@ def regen(groups=False):
     gdir = os.path.join(LEAN, "OrixProofs", "GenAudit")
     os.makedirs(gdir, exist_ok=True)
     wanted = set()
-    for k, (binders, stmt, defs, props) in KERNEL_OBLIGATIONS.items():
+    skipped = {}
+    for k, spec in KERNEL_OBLIGATIONS.items():
+        binders, stmt, defs, props = spec[:4]
+        tac = spec[4] if len(spec) > 4 else POLY_TAC
+        hdr = spec[5] if len(spec) > 5 else HDR
+        beats = f"set_option maxHeartbeats {spec[6]} in\n" if len(spec) > 6 else ""
         if kstatus.get(k) != "translated":
             continue
+        if len(spec) > 7:
+            ok = spec[7](text)
+            if ok is not True:
+                skipped[k] = str(ok)
+                continue
         mod = f"K_{k}"
-        body = HDR + f"theorem {k}_eq_model {binders} :\n    {stmt} := " + POLY_TAC.format(defs=defs) + \
+        body = hdr + beats + f"theorem {k}_eq_model {binders} :\n    {stmt} := " + tac.format(defs=defs) + \
             "\nend Orix.GenAudit\n"
         if write_if_changed(os.path.join(gdir, mod + ".lean"), body):
             changed.append(f"OrixProofs/GenAudit/{mod}.lean")
@@ -120,11 +276,20 @@ def regen(groups=False):
         if fn.endswith(".lean") and fn not in wanted and fn.startswith("K_"):
             os.remove(os.path.join(gdir, fn))
     gstat = None
-    if groups or not os.path.exists(os.path.join(LEAN, "OrixGen", "PointGroups.lean")):
+    sstat = None
+    if groups or not os.path.exists(os.path.join(LEAN, "OrixGen", "PointGroups.lean")) \
+            or not os.path.exists(os.path.join(LEAN, "OrixGen", "Sectors.lean")):
         gstat = regen_groups(changed)
+        sstat = regen_sectors(changed)
+    iostat = None
+    if io or not os.path.exists(os.path.join(LEAN, "OrixGen", "IoTables.lean")):
+        iostat = regen_io(changed)
     write_if_changed(os.path.join(LEAN, "OrixGen.lean"),
-                     "import OrixGen.Kernels\nimport OrixGen.PointGroups\nimport OrixGen.SpaceGroups\nimport OrixGen.C03Known\n")
-    return {"kernels": kstatus, "obligations": obligations, "changed": changed, "groups": gstat}
+                     "import OrixGen.Kernels\nimport OrixGen.PointGroups\nimport OrixGen.SpaceGroups\nimport OrixGen.C03Known\n"
+                     "import OrixGen.IoTables\nimport OrixGen.Sectors\n")
+    return {"kernels": kstatus, "obligations": obligations, "skipped_obligations": skipped, "changed": changed,
+            "groups": gstat, "io": iostat,
+            "sectors": sstat}
 
 
 if __name__ == "__main__":
